@@ -111,7 +111,7 @@ fn probe_prog(fields: Vec<(&str, crate::program::Ty)>, extra: Vec<crate::program
     let idx = defs.len();
     defs.push(Def {
         path: vec!["krate".into(), "Probe".into()],
-        params: params.iter().map(|n| ParamDecl { name: n.to_string(), skipped: false, config: false }).collect(),
+        params: params.iter().map(|n| ParamDecl { name: n.to_string(), skipped: false, config: false, compactable: false }).collect(),
         docs: vec![],
         body: Body::Struct(Fields::Named(
             fields
@@ -145,7 +145,7 @@ impl Property for C01 {
                     let cow_unit = Def { path: vec!["farm".into(), "Cow".into()], params: vec![], docs: vec![], body: Body::Struct(Fields::Unit), config_inner: None };
                     let cow_gen = Def {
                         path: vec!["barn".into(), "Cow".into()],
-                        params: vec![ParamDecl { name: "T".into(), skipped: false, config: false }],
+                        params: vec![ParamDecl { name: "T".into(), skipped: false, config: false, compactable: false }],
                         docs: vec![],
                         body: Body::Struct(Fields::Named(vec![
                             FieldDef { name: Some("a".into()), ty: Ty::Prim(Prim::U8), compact_attr: false, docs: vec![] },
